@@ -138,7 +138,7 @@ ExtOf(k, num, crc) ==
     [] k = "hop" -> BHop(num, 1, crc, 64, 2)
     [] k = "spray" -> BSpray(num, 0, crc, <<8>>)
     [] k = "dtlsr" -> BDtlsr(num, 0, crc, EDtn(TSrc), <<1, 0, 0, 0, 0>>, <<<<EIpn(<<7>>, <<1>>), <<>>>>>>)
-    [] k = "prophet" -> BProphet(num, 0, crc, <<<<EDtn(TPrev), <<63, 224, 0, 0, 0, 0, 0, 0>>>>>>)     \* 0.5
+    [] k = "prophet" -> BProphet(num, 0, crc, <<<<EDtn(TPrev), <<63, 185, 153, 153, 153, 153, 153, 154>>>>>>)     \* 0.1
     [] k = "sig" -> BSig(num, 1, crc, Fill(17, 32), Ramp(64))
     [] k = "unknown" -> BUnknown(222, num, 16, crc, <<1, 2, 3>>)
 KindOrder == <<"prev", "age", "hop", "spray", "dtlsr", "prophet", "sig", "unknown">>
@@ -176,7 +176,9 @@ EidCases ==
    of its own choosing, every such order must be accepted again (the harness repeats these round trips) *)
 PeerIds == <<EDtn(TPrev), EIpn(<<7>>, <<1>>), EDtn(TSrc)>>
 DtlsrPeers(n) == [i \in 1..n |-> <<PeerIds[i], <<i * 3>>>>]
-ProphetPeers(n) == [i \in 1..n |-> <<PeerIds[i], <<63, 224 + i, 0, 0, 0, 0, 0, 0>>>>]
+\* predictabilities whose bit patterns use the whole mantissa: 0.1, 1/3, the largest value below 1 (nothing a shorter float holds)
+Preds == << <<63, 185, 153, 153, 153, 153, 153, 154>>, <<63, 213, 85, 85, 85, 85, 85, 85>>, <<63, 239, 255, 255, 255, 255, 255, 255>> >>
+ProphetPeers(n) == [i \in 1..n |-> <<PeerIds[i], Preds[i]>>]
 MapCases ==
      {Bndl("maps-dtlsr", <<n, c>>, P0, <<BDtlsr(2, 0, c, EDtn(TSrc), <<1, 0, 0, 0, 0>>, DtlsrPeers(n)), Pay0>>) : n \in 0..3, c \in 0..2}
   \cup {Bndl("maps-prophet", <<n, c>>, P0, <<BProphet(2, 0, c, ProphetPeers(n)), Pay0>>) : n \in 0..3, c \in 0..2}
@@ -193,7 +195,7 @@ WideCases == {Bndl("wide", <<w, c>>, [P0 EXCEPT !.w = w, !.crc = c],
 MBase == Bndl("mut", <<>>, [P0 EXCEPT !.flags = <<64>>], <<BPrev(2, 0, 1, EDtn(TPrev)), BHop(3, 0, 2, 9, 3), BPayload(1, 0, 1, Ramp(9))>>)
 Mutations == <<"ver", "nopayload", "twopayload", "paynum", "paynotlast", "dupnum", "duptype", "badipn-src", "baddtn-dst", "badprev",
                "fragmnf", "adminreq", "anonreq", "anonnomnf", "anonblockreq", "adminblockreq", "zeronoage", "hopexceeded",
-               "expired-ts", "expired-age", "hopwide", "limitwide", "verwide">>
+               "expired-ts", "expired-age", "hopwide", "limitwide", "verwide", "nopayload-num1">>
 SetFlags(b, f) == [b EXCEPT !.primary.flags = UOfInt(f)]
 AddFlag(b, f) == IF Bit(IntOfU(b.primary.flags), f) THEN b ELSE SetFlags(b, IntOfU(b.primary.flags) + f)
 Apply(m, b) ==
@@ -219,6 +221,9 @@ Apply(m, b) ==
     [] m = "hopwide" -> [b EXCEPT !.blocks = <<BHop(15, 0, 1, 9, 259)>> \o SelectSeq(b.blocks, LAMBDA x : x.type # 10)]
     [] m = "limitwide" -> [b EXCEPT !.blocks = <<BHop(15, 0, 1, 265, 3)>> \o SelectSeq(b.blocks, LAMBDA x : x.type # 10)]
     [] m = "verwide" -> [b EXCEPT !.primary.ver = 263]
+    \* no payload block at all, but the last block bears the payload's number
+    [] m = "nopayload-num1" -> LET rest == SelectSeq(b.blocks, LAMBDA x : x.type # 1)
+                               IN [b EXCEPT !.blocks = [i \in 1..Len(rest) |-> IF i = Len(rest) THEN [rest[i] EXCEPT !.num = 1] ELSE rest[i]]]
     [] m = "expired-ts" -> [b EXCEPT !.primary.ts = PastU, !.primary.life = <<3, 232>>]
     [] m = "expired-age" -> [b EXCEPT !.primary.ts = NoU, !.primary.life = <<3, 232>>, !.blocks = <<BAge(16, 0, 1, <<39, 16>>)>> \o SelectSeq(b.blocks, LAMBDA x : x.type # 7)]
 \* also the benign twin of "zeronoage": zero time *with* an age block must stay acceptable
